@@ -666,6 +666,7 @@ type mapLoop struct {
 	next   *ssa.Next
 	header *ssa.BasicBlock
 	body   map[*ssa.BasicBlock]bool
+	exits  []*ssa.BasicBlock // blocks of the loop statement that leave the loop
 	ord    int
 }
 
@@ -710,6 +711,21 @@ func findMapLoops(f *ssa.Function) []*mapLoop {
 					}
 				}
 			}
+			// exit arms: blocks inside the loop statement that leave it (return,
+			// panic) are not part of the natural loop; they are dominated by the
+			// block the header enters on "another entry"
+			if iff, ok := h.Instrs[len(h.Instrs)-1].(*ssa.If); ok && len(h.Succs) == 2 {
+				_ = iff
+				entry := h.Succs[0]
+				if l.body[entry] {
+					for _, b := range f.Blocks {
+						if !l.body[b] && entry.Dominates(b) {
+							l.body[b] = true
+							l.exits = append(l.exits, b)
+						}
+					}
+				}
+			}
 			out = append(out, l)
 		}
 	})
@@ -725,6 +741,9 @@ type sink struct {
 func (e *orderEngine) classify(l *mapLoop) []sink {
 	var sinks []sink
 	f := l.fn
+	if l.rng != nil && singleEntryGuarded(l.rng) {
+		return nil // `if len(m) == 1 { for … range m`: one entry has one order
+	}
 	add := func(i ssa.Instruction, format string, a ...interface{}) {
 		sinks = append(sinks, sink{i, fmt.Sprintf(format, a...)})
 	}
@@ -869,6 +888,65 @@ func (e *orderEngine) classify(l *mapLoop) []sink {
 			add(ins, "assigns an iteration-dependent value to %s (last visited entry wins) [%s]", d, why)
 		case "unknown":
 			add(ins, "hands %s to a function not known to be order-insensitive [%s]", d, why)
+		}
+	}
+	// two returns inside the loop that give different (iteration-independent)
+	// values: which one is taken depends on the entry visited first
+	{
+		var rets []*ssa.Return
+		for _, b := range f.Blocks {
+			if l.body[b] {
+				if ret, ok := b.Instrs[len(b.Instrs)-1].(*ssa.Return); ok {
+					rets = append(rets, ret)
+				}
+			}
+		}
+		sig := func(v ssa.Value) string {
+			if k, ok := v.(*ssa.Const); ok {
+				if k.Value == nil {
+					return "nil"
+				}
+				return k.Value.ExactString()
+			}
+			// a composite literal returned by value: the constants stored into it
+			if u, ok := v.(*ssa.UnOp); ok && u.Op == token.MUL {
+				if al, ok := u.X.(*ssa.Alloc); ok && al.Referrers() != nil {
+					parts := []string{}
+					for _, r := range *al.Referrers() {
+						if fa, ok := r.(*ssa.FieldAddr); ok && fa.Referrers() != nil {
+							for _, rr := range *fa.Referrers() {
+								if st, ok := rr.(*ssa.Store); ok {
+									if k, ok := st.Val.(*ssa.Const); ok && k.Value != nil {
+										parts = append(parts, fmt.Sprintf("%d=%s", fa.Field, k.Value.ExactString()))
+									} else {
+										parts = append(parts, fmt.Sprintf("%d=?%p", fa.Field, st.Val))
+									}
+								}
+							}
+						}
+					}
+					sort.Strings(parts)
+					return "{" + strings.Join(parts, ",") + "}"
+				}
+			}
+			return fmt.Sprintf("?%p", v)
+		}
+	pairs:
+		for i := 0; i < len(rets); i++ {
+			for j := i + 1; j < len(rets); j++ {
+				for k := range rets[i].Results {
+					vi, _ := returnValues(rets[i])
+					vj, _ := returnValues(rets[j])
+					a, b := vi[k], vj[k]
+					if isErrorType(a.Type()) || isBoolType(a.Type()) || dep[a] || dep[b] {
+						continue
+					}
+					if sig(a) != sig(b) {
+						add(rets[j], "returns from inside the loop with a result that differs from the one returned at %s: the entry visited first decides which", e.p.pos(rets[i].Pos()))
+						break pairs
+					}
+				}
+			}
 		}
 	}
 	for _, b := range f.Blocks {
@@ -1937,4 +2015,42 @@ func onlyReadInside(al *ssa.Alloc, l *mapLoop) bool {
 		return true
 	}
 	return ok(al, 0)
+}
+
+// singleEntryGuarded: the range statement runs only where len(X) == 1 was
+// tested on the same value.
+func singleEntryGuarded(r *ssa.Range) bool {
+	x := r.X
+	refs := x.Referrers()
+	if refs == nil {
+		return false
+	}
+	for _, ref := range *refs {
+		call, ok := ref.(*ssa.Call)
+		if !ok {
+			continue
+		}
+		if b, ok := call.Call.Value.(*ssa.Builtin); !ok || b.Name() != "len" || call.Referrers() == nil {
+			continue
+		}
+		for _, u := range *call.Referrers() {
+			bin, ok := u.(*ssa.BinOp)
+			if !ok || bin.Op != token.EQL {
+				continue
+			}
+			other := bin.Y
+			if other == ssa.Value(call) {
+				other = bin.X
+			}
+			if k, ok := constInt(other); !ok || k != 1 {
+				continue
+			}
+			for _, br := range branchesOn(bin) {
+				if br.TrueSucc == r.Block() || (br.TrueSucc.Dominates(r.Block()) && !br.FalseSucc.Dominates(r.Block()) && len(br.TrueSucc.Preds) == 1) {
+					return true
+				}
+			}
+		}
+	}
+	return false
 }
